@@ -8,7 +8,8 @@ NONASCII = list('éßİǆ中') + ['\xa0', '\x1c', '\u2003', '\x85']   # incl. wh
 def texts(min_size=0, max_size=10, esc=False, nonascii=True, alphabet=None):
     alpha = list(alphabet) if alphabet else (ASCII * 3 + (NONASCII if nonascii else []))
     if esc:
-        alpha = alpha + ['\x1b', '[', 'm']
+        # single bytes and whole sequences (assign_str() puts them into the base text unparsed)
+        alpha = alpha + ['\x1b', '[', 'm', '\x1b[1m', '\x1b[31m', '\x1b[m', '\x1b[2K']
     return st.lists(st.sampled_from(alpha), min_size=min_size, max_size=max_size).map(''.join)
 
 
